@@ -476,8 +476,16 @@ impl Evaluate for Instance {
         // Reconstruct decision variable values
         let mut samples = samples.clone();
         for state in samples.states_mut() {
-            let mut new = eval_dependencies(&self.decision_variable_dependency, state?)?;
+            let state = state?;
+            let mut new = eval_dependencies(&self.decision_variable_dependency, state)?;
             used_ids.append(&mut new);
+            // As in `evaluate`, variables absent from the state take the value in their bound nearest to zero
+            for v in &self.decision_variables {
+                if let HashMapEntry::Vacant(e) = state.entries.entry(v.id) {
+                    let bound: crate::Bound = v.try_into()?;
+                    e.insert(bound.nearest_to_zero());
+                }
+            }
         }
         let mut transposed = samples.transpose();
         let decision_variables: Vec<SampledDecisionVariable> = self
